@@ -638,6 +638,7 @@ func runWorkflow20(c CaseC20) *result20 {
 	hasEntry, hasExit := false, false
 	var deferred []func()
 	wfData, wfCtl := map[string]bool{}, map[string]bool{}
+	wfSucc := map[string][]string{} // every connection (data, control or both) and every branch target
 	for _, op := range c.Ops {
 		switch op.K {
 		case "node":
@@ -735,6 +736,7 @@ func runWorkflow20(c CaseC20) *result20 {
 					if ctl {
 						wfCtl[pair] = true
 					}
+					wfSucc[op.A] = append(wfSucc[op.A], op.B)
 					fromOK = true
 					if fromOK || op.A == "start" {
 						if op.A == "start" && op.Flav != "nocontrol" {
@@ -775,6 +777,7 @@ func runWorkflow20(c CaseC20) *result20 {
 				_ = fromOK
 				_ = unknown
 				from, ts := op.A, append([]string(nil), op.Ts...)
+				wfSucc[from] = append(wfSucc[from], ts...)
 				switch {
 				case op.A == "end":
 					viol("END as branch source")
@@ -797,6 +800,11 @@ func runWorkflow20(c CaseC20) *result20 {
 			if !compiledOK {
 				for _, d := range deferred {
 					d()
+				}
+				// workflows always run in all-predecessor mode: a cycle through connections of any kind (data-only,
+				// control-only, both) or branch targets can never start
+				if hasCycle(wfSucc) {
+					viol("cycle in all-predecessor mode")
 				}
 			}
 			var r compose.Runnable[string, string]
@@ -1173,6 +1181,21 @@ func genC20(t *rapid.T) CaseC20 {
 			}
 		}
 	case "workflow":
+		if rapid.IntRange(0, 9).Draw(t, "mixedCycle") == 0 {
+			// a two-node cycle whose two connections are of generated kinds (plain / data-only / control-only)
+			kind := func(l, from, to string) Op20 {
+				switch rapid.IntRange(0, 2).Draw(t, l) {
+				case 0:
+					return Op20{K: "input", A: from, B: to, Map: "k"}
+				case 1:
+					return Op20{K: "input", A: from, B: to, Map: "k", Flav: "nocontrol"}
+				}
+				return Op20{K: "dep", A: from, B: to}
+			}
+			c.Ops = append(c.Ops, Op20{K: "node", A: "a", Kind: "map"}, Op20{K: "node", A: "b", Kind: "map"},
+				Op20{K: "input", A: "start", B: "a", Map: "s"}, kind("ab", "a", "b"), kind("ba", "b", "a"), Op20{K: "input", A: "b", B: "end"}, Op20{K: "compile"})
+			return c
+		}
 		if rapid.IntRange(0, 7).Draw(t, "doubleConnection") == 0 {
 			// a well-formed workflow in which one pair of nodes is connected twice, in every combination of
 			// plain input / data-only input / dependency, the two inputs mapped to different fields
